@@ -141,6 +141,31 @@ def handle (ts : List String) : String :=
         | none => "bad-op"
       | _ => "bad-op"
     | none => "bad-op"
+  | "build" :: nsub :: r =>
+    -- build <nsub> (<nparams> params…)* <nkw> kw…
+    match nsub.toNat? with
+    | some nsub =>
+      let rec subsP : Nat → List String → Option (List (List String) × List String)
+        | 0, ts => some ([], ts)
+        | n+1, k :: ts => do
+            let k ← k.toNat?
+            let (ps, ts) ← pMany pStr k ts
+            let (rest, ts) ← subsP n ts
+            pure (ps :: rest, ts)
+        | _, _ => none
+      match subsP nsub r with
+      | some (subs, nk :: r2) =>
+        match nk.toNat? with
+        | some nk =>
+          match pMany pStr nk r2 with
+          | some (kw, []) =>
+            match buildRoute subs kw with
+            | some res => "ok " ++ ";".intercalate (res.map (",".intercalate ·))
+            | none => "typeerror"
+          | _ => "bad-op"
+        | none => "bad-op"
+      | _ => "bad-op"
+    | none => "bad-op"
   | _ => "bad-op"
 
 def main : IO Unit := Proto.main1 handle
